@@ -577,11 +577,33 @@ pub fn c11(thorough: bool, rng: &mut Rng, out: &mut Out) {
 // ---------------------------------------------------------------------------------------------
 // C08: controller against real virtual signs, from any prior sign state
 
-fn prior_walk(rng: &mut Rng, a: u16) -> Vec<Message<'static>> {
+fn prior_walk(rng: &mut Rng, a: u16, target: SignType) -> Vec<Message<'static>> {
+    let mut v = prior_walk_core(rng, a, target);
+    // ... and possibly leave that state again the way real traffic can: shut down, start (and maybe
+    // finish) a reset, a stray pixels-complete, a poll
+    let ad = Address(a);
+    match rng.below(10) {
+        0 | 1 => v.push(Message::Goodbye(ad)),
+        2 => v.push(Message::RequestOperation(ad, Operation::StartReset)),
+        3 => {
+            v.push(Message::RequestOperation(ad, Operation::StartReset));
+            v.push(Message::RequestOperation(ad, Operation::FinishReset));
+        }
+        4 => v.push(Message::PixelsComplete(ad)),
+        5 => v.push(Message::Hello(ad)),
+        _ => {}
+    }
+    v
+}
+
+fn prior_walk_core(rng: &mut Rng, a: u16, target: SignType) -> Vec<Message<'static>> {
     // drive the sign at `a` into an arbitrary protocol state (incl. abandoned transfers)
     let mut v: Vec<Message<'static>> = vec![];
     let ad = Address(a);
-    let depth = rng.below(9);
+    let depth = match rng.below(12) {
+        9 | 10 | 11 => 5,
+        d => d,
+    };
     if depth == 0 {
         return v;
     }
@@ -589,8 +611,9 @@ fn prior_walk(rng: &mut Rng, a: u16) -> Vec<Message<'static>> {
     if depth == 1 {
         return v;
     }
-    let t = *rng.pick(&TYPES);
-    let cfg = if rng.chance(70) { t.to_bytes().to_vec() } else { tiny_cfg(rng.range(1, 20) as u32, rng.range(1, 16) as u32, rng.chance(50)) };
+    // as the same type the controller will ask for (stale data then fits), another type, or a tiny one
+    let t = if rng.chance(50) { target } else { *rng.pick(&TYPES) };
+    let cfg = if rng.chance(75) { t.to_bytes().to_vec() } else { tiny_cfg(rng.range(1, 20) as u32, rng.range(1, 16) as u32, rng.chance(50)) };
     v.push(sd(0, &cfg));
     if depth == 2 {
         return v;
@@ -648,7 +671,7 @@ pub fn c08(thorough: bool, rng: &mut Rng, out: &mut Out) {
                 } else {
                     format!("{},{:04X}", style_tok(style), a)
                 };
-                let prior = prior_walk(rng, a);
+                let prior = prior_walk(rng, a, *t);
                 let (w, h) = t.dimensions();
                 let npages = rng.below(4) as usize;
                 let mk = |rng: &mut Rng| -> String {
@@ -701,7 +724,7 @@ pub fn c08(thorough: bool, rng: &mut Rng, out: &mut Out) {
         for (ti, t) in TYPES.iter().enumerate() {
             for style in [PageFlipStyle::Manual, PageFlipStyle::Automatic] {
                 let a: u16 = rng.next() as u16;
-                let prior = prior_walk(rng, a);
+                let prior = prior_walk(rng, a, *t);
                 let (w, h) = t.dimensions();
                 let npages = rng.below(4) as usize;
                 let pages: Vec<Vec<u8>> = (0..npages).map(|k| small_page(k as u8, w, h, rng)).collect();
